@@ -83,6 +83,10 @@ class TTCollection(object):
                 self.dsig = table_D_S_I_G_("DSIG")
                 file.seek(header.ulDsigOffset, 0)
                 self.dsig.data = file.read(header.ulDsigLength)
+                if len(self.dsig.data) != header.ulDsigLength:
+                    from fontTools.ttLib import TTLibError
+
+                    raise TTLibError("not enough data for the DSIG block of the collection")
 
         # don't close file if lazy=True, as the TTFont hold a reference to the original
         # file; the file will be closed once the TTFonts are closed in the
@@ -107,14 +111,10 @@ class TTCollection(object):
         the 'file' argument can be either a pathname or a writable
         file object.
         """
-        if not hasattr(file, "write"):
-            final = None
-            file = open(file, "wb")
-        else:
-            # assume "file" is a writable file object
-            # write to a temporary stream to allow saving to unseekable streams
-            final = file
-            file = BytesIO()
+        # always build the collection in memory first, so that a failure leaves an
+        # existing destination untouched (same as TTFont.save)
+        final = file
+        file = BytesIO()
 
         tableCache = {} if shareTables else None
 
@@ -154,8 +154,11 @@ class TTCollection(object):
             # Write the length and offset
             file.write(struct.pack(">2L", len(data), dsig_offset))
 
-        if final:
+        if hasattr(final, "write"):
             final.write(file.getvalue())
+        else:
+            with open(final, "wb") as f:
+                f.write(file.getvalue())
         file.close()
 
     def saveXML(self, fileOrPath, newlinestr="\n", writeVersion=True, **kwargs):
